@@ -207,6 +207,7 @@ STUB2 = "#[kani::stub(core::slice::memchr::memchr, naive_memchr)]\n    #[kani::s
 STUB3 = STUB2 + "\n    #[kani::stub(core::fmt::Arguments::as_str, as_str_none)]"
 UNWIND = 12
 PRETTY_CHUNK = 3
+FLAT_GROUP = 2
 
 # option kinds: name -> list of (label, statements applied to `o`); every variant is a separate concrete path
 KINDS = {
@@ -542,11 +543,22 @@ def type_program(key, title, tys, configs, top=None, extra_items="", extra_harne
     if len(chunks) > 1:
         for ci, ch in enumerate(chunks):
             body += "    fn body_%d(%s) {\n%s\n    }\n" % (ci + 1, sig, "\n".join(ch))
+    # flat mode: at most FLAT_GROUP pretty-chunks (= 6 value pairs) per flat harness (several option variants each)
+    fgroups = [list(range(i, min(i + FLAT_GROUP, len(chunks)))) for i in range(0, len(chunks), FLAT_GROUP)]
+    if len(fgroups) > 1:
+        argl = "o, split" + (", nl" if nl_used else "") + (", byte" if b_used else "")
+        for gi, g in enumerate(fgroups):
+            body += "    fn body_f%d(%s) { %s }\n" % (gi + 1, sig, " ".join("body_%d(%s);" % (ci + 1, argl) for ci in g))
     hs = []
     harn = ""
     for suffix, alt, kind in configs:
-        parts = [("", "body", len(blocks), labels)] if not alt or len(chunks) == 1 else \
-            [("_%d" % (ci + 1), "body_%d" % (ci + 1), len(ch), labs[ci]) for ci, ch in enumerate(chunks)]
+        if alt:
+            parts = [("", "body", len(blocks), labels)] if len(chunks) == 1 else \
+                [("_%d" % (ci + 1), "body_%d" % (ci + 1), len(ch), labs[ci]) for ci, ch in enumerate(chunks)]
+        else:
+            parts = [("", "body", len(blocks), labels)] if len(fgroups) == 1 else \
+                [("_%d" % (gi + 1), "body_f%d" % (gi + 1), sum(len(chunks[ci]) for ci in g), [l for ci in g for l in labs[ci]])
+                 for gi, g in enumerate(fgroups)]
         for psuf, bname, ncov, plabs in parts:
             name = "ob_" + suffix + psuf
             extra_args = (", nl" if nl_used else "") + (", byte" if b_used else "")
